@@ -45,7 +45,7 @@ LitValue(s) ==
   IN IF dot > 0
      THEN LET ip == SubSeq(s, 1, dot - 1)
               fp == SubSeq(s, dot + 1, Len(s))
-          IN IF AllDigits(fp) /\ (ip = <<>> \/ AllDigits(ip)) /\ Len(ip) + Len(fp) <= 9
+          IN IF AllDigits(fp) /\ (ip = <<>> \/ AllDigits(ip)) /\ Len(ip) + Len(fp) <= 9 /\ Len(fp) <= 6   \* (recorded floats snap onto denominators <= 10^6)
              THEN Num(DigitsVal(ip \o fp), Pow10(Len(fp))) ELSE Unspec
      ELSE IF pct > 0
      THEN LET ip == SubSeq(s, 1, pct - 1)
